@@ -36,6 +36,36 @@ CHECKS["C01"] = dict(
     note="Trusted: TLC/SANY, BigInt/Rat definitions (accelerator via differential self-test). Angles restricted to rational "
          "tangents (dense in the reals); real-valued angles are covered only through that lattice.")
 
+_PANEL_NOTE = ("Trusted: TLC/SANY, BigInt/Rat definitions (accelerator via differential self-test), Bardell.tla integrals "
+               "(themselves bound to the C tables by C10). Inputs are rational (rational-tangent ply angles, Pythagorean cone "
+               "angles, dyadic lengths); series orders up to 8 in the exhaustive tiers (higher indices are covered by C10 and "
+               "the index-generic loops). Generated .pyx kernels cannot be rebuilt here (no Cython): the verdict is about the "
+               "extensions loaded, re-linked against lib/src of the working tree.")
+_PANEL_TECH = ("TLA+ specification PanelOps/PanelModel: every matrix is the Hessian of its energy functional written as "
+               "separable bilinear terms over a kinematic table and evaluated exactly by TLC from Bardell.tla; consequences "
+               "as TLC invariants on the bounded model; TLC-enumerated <<definition, request>> lattice replayed on fresh "
+               "Panel objects and seeded random rational definitions, every matrix entry judged by TLC trace validation")
+CHECKS["C02"] = dict(level="model_checking", design="5 C02", technique=_PANEL_TECH, note=_PANEL_NOTE,
+    text="TLC computes k0 for plate, w-only plate, cylindrical and conical (41 constant-radius sections) panels from the Donnell "
+         "strain table and the exact laminate matrix, checks symmetry, tiling of y sub-intervals, pre-load addition, "
+         "non-negative probe forms and rigid-body null vectors as invariants, and decides entry by entry (2^-38 of the term "
+         "magnitude, structural zeros exact) whether Panel.calc_k0 agrees, for prime-valued edge flags (every mis-wired flag "
+         "shows), unsymmetric offset laminates, sub-intervals, placements and random rational definitions.")
+CHECKS["C03"] = dict(level="model_checking", design="5 C03", technique=_PANEL_TECH, note=_PANEL_NOTE,
+    text="kG0 as the Hessian of the pre-stress work for all models and sub-intervals; TLC checks symmetry, that only w amplitudes "
+         "are touched, linearity in (Nxx,Nyy,Nxy) and tiling, and decides every entry of Panel.calc_kG0 for mixed-sign and shear "
+         "load triples. The state-based variant (resultants recovered from a Ritz state) is decided through PanelNL (C08 module).")
+CHECKS["C04"] = dict(level="model_checking", design="5 C04", technique=_PANEL_TECH, note=_PANEL_NOTE,
+    text="kM as the kinetic-energy Hessian with z measured from the reference surface the laminate uses (coupling -mu*h*d, rotary "
+         "mu*h*(d^2+h^2/12)); TLC checks symmetry, exact positive definiteness on active amplitudes, total mass of a rigid "
+         "translation, tiling, and decides every entry of Panel.calc_kM. The code's +mu*h*d coupling is reproduced exactly by the "
+         "named deviation KF_C04_OffsetCouplingSign (known finding); any other discrepancy is a violation.")
+CHECKS["C19"] = dict(level="model_checking", design="5 C19", technique=_PANEL_TECH, note=_PANEL_NOTE,
+    text="kA / cA as the bilinear forms of the piston-theory pressure law; TLC checks w-only support, linearity in beta/gamma, "
+         "skewness of the flow part and symmetry of the curvature and damping parts under flow-edge restraint, and decides every "
+         "entry of Panel.calc_kA / calc_cA (both flows, flat, w-only and cylindrical models). The curvature part mirrored with the "
+         "wrong sign is the named deviation KF_C19_GammaPartSkewed (known finding).")
+
 NOT_YET = {}
 
 NA = {
